@@ -166,6 +166,38 @@ class FnQ:
         sp = sp or self.fn.span
         return "%s:%s (%s)" % (sp["file"], sp["line"], self.fn.short())
 
+    ITER_CALLS = ("into_iter", "iter", "iter_mut", "enumerate", "by_ref", "take", "skip", "filter", "step_by", "zip", "chain", "take_while",
+                  "skip_while", "filter_map", "map", "rev", "peekable", "fuse", "cycle", "flat_map", "scan", "inspect", "copied", "cloned")
+
+    def iter_chain_full(self, next_call):
+        """adapter calls between the iterated collection and a `next` call: list of (name, extra args)
+        from the outermost adapter inwards, plus the base expression; None if not recognised"""
+        a = next_call.args[0] if next_call.args else None
+        if a is None:
+            return None
+        root, _n = field_chain(a)
+        if root[0] != "local":
+            return None
+        defs = self.ev.def_sites().get(root[1], [])
+        if len(defs) != 1:
+            return None
+        d = defs[0]
+        if d[0] == "c":
+            e = strip(self.ev.call_expr(d[1]))
+        else:
+            st = self.fn.body.blocks[d[1]].stmts[d[2]]
+            e = strip(self.ev.rvalue(st.rv, (d[1], d[2])))
+        chain = []
+        while e[0] == "call" and e[2] and e[4] in self.ITER_CALLS:
+            chain.append((e[4], e[2][1:]))
+            e = e[2][0]
+        return chain, e
+
+    def ordered(self, sites):
+        """call / write sites in program order (reverse post-order of their blocks)"""
+        rpo = self.fn.body.rpo()
+        return sorted(sites, key=lambda s: (rpo.get(s.b, 1 << 30), getattr(s, "i", None) if getattr(s, "i", None) is not None else 1 << 20))
+
     def local_name(self, l):
         return self.fn.body.name_of(l) or "_%d" % l
 
@@ -192,6 +224,19 @@ class World:
         self.effects = Effects(prog)
         self._callees = {}
         self._callers = None
+        self._inliner = None
+
+    def qi(self, fn, policy=None):
+        """query object over the INLINED view of fn (private same-crate helpers spliced in)"""
+        from .inline import Inliner, default_policy
+        if self._inliner is None:
+            self._inliner = Inliner(self.prog, policy or default_policy)
+        key = "inl:" + fn.path
+        r = self._q.get(key)
+        if r is None:
+            r = FnQ(self, self._inliner.inlined(fn))
+            self._q[key] = r
+        return r
 
     def q(self, fn):
         r = self._q.get(fn.path)
